@@ -107,7 +107,10 @@ def random_rhythm(rng, L, values):
 
 def make_entry(rng, v, channel, rest_p, bpm_p=0.0, lo=20, hi=90):
     if rng.random() < rest_p:
-        return {"v": [v.base, v.dots, v.r1, v.r2], "notes": None if rng.random() < 0.75 else []}
+        e = {"v": [v.base, v.dots, v.r1, v.r2], "notes": None if rng.random() < 0.75 else []}
+        if e["notes"] == [] and rng.random() < 2 * bpm_p:
+            e["bpm"] = rng.choice([60, 90, 120, 133, 200, 47])      # a tempo change on a silent beat (an empty container carries it)
+        return e
     notes = MM.random_notes(rng, size=rng.choice([1, 1, 2, 3]), lo=lo, hi=hi, channel=channel)
     e = {"v": [v.base, v.dots, v.r1, v.r2], "notes": notes}
     if rng.random() < bpm_p:
@@ -182,8 +185,8 @@ def model_parallel(tracks, bpm, replay_last_in_drift_bars=False):
                 if e["notes"]:
                     for n in e["notes"]:
                         raw.append((p, p + ln, n))
-                    if "bpm" in e:
-                        changes.append((p, ti, e["bpm"]))
+                if e["notes"] is not None and "bpm" in e:
+                    changes.append((p, ti, e["bpm"]))       # (an empty container can carry a tempo change too)
                 p += ln
             longest = max(longest, p - pos0)
         pos0 += longest
